@@ -148,5 +148,15 @@ CHECKS["C16"] = dict(
     note=_TB + "; LAPACK svd / eigh are served from the harness' registry (inverse parametrisation); LOBPCG SVD and CG-pinv outside",
     technique="symbolic execution of the Python source on exact rational-function terms with registered decompositions and an exact least-squares "
               "stand-in; z3 decides residuals and sort path flips; float replay of path seeds")
-for _p in ["C17","C18","C19"]:
+CHECKS["C18"] = dict(
+    text="(a) every single operation and a seed-rotated sample of all ordered pairs (thorough: pairs and triples) of a 44-operation alphabet (products on both "
+         "sides, .T/.H, algebra, annotation, indexing, densification, inv / solve, diag / trace, cg with a caller-owned initial guess, lanczos / arnoldi "
+         "with caller-owned start vectors, matrix functions, decompositions) executed on a pool of 18 operators built from caller-owned symbolic arrays: "
+         "afterwards every caller-owned array is entrywise identical to its snapshot (symbolic arrays alias exactly like ndarrays, so in-place updates "
+         "are visible), every operator has the same dense form / annotations and repeating the first call gives the same result; (b) flatten / unflatten "
+         "round trip, leaves == array parameters and leaf substitution for 26 trees, under 6 instantiation histories of the per-class attribute registry",
+    note=_TB + "; contents of the arrays used by the iterative solvers are concrete (their control flow depends on norms)",
+    technique="symbolic execution of the Python source on aliasing-faithful symbolic arrays; entrywise identities decided on exact normal forms / z3; float "
+              "replay of path seeds")
+for _p in ["C17","C19"]:
     NA[_p] = "check under construction in this session (not yet registered); see DESIGN.md section 5 for the plan"
